@@ -36,7 +36,12 @@ ENV_VARS = ["HWLOC_COMPONENTS", "HWLOC_THISSYSTEM", "HWLOC_FSROOT", "HWLOC_CPUID
             "HWLOC_X86_TOPOEXT_NUMANODES", "HWLOC_KNL_MSCACHE_L3", "HWLOC_KEEP_NVIDIA_GPU_NUMA_NODES",
             "HWLOC_DEBUG_ALLOW_OVERLAPPING_NODE_CPUSETS", "HWLOC_CPUKINDS_MAXFREQ", "HWLOC_CPUKINDS_RANKING",
             "HWLOC_PCI_LOCALITY", "HWLOC_LIBXML_EXPORT", "HWLOC_LIBXML_IMPORT", "HWLOC_KNL_NUMA_QUIRK",
-            "HWLOC_USE_NUMA_DISTANCES", "HWLOC_DONT_MERGE_CLUSTER_GROUPS", "HWLOC_ANNOTATE_GLOBAL_COMPONENTS"]
+            "HWLOC_USE_NUMA_DISTANCES", "HWLOC_DONT_MERGE_CLUSTER_GROUPS", "HWLOC_ANNOTATE_GLOBAL_COMPONENTS",
+            "HWLOC_HIDE_ERRORS", "HWLOC_COMPONENTS_VERBOSE", "HWLOC_SYNTHETIC", "HWLOC_XMLFILE", "HWLOC_CPUKINDS_HOMOGENEOUS",
+            "HWLOC_NO_HARDWIRED_TOPOLOGY", "HWLOC_KNL_HDH_FALLBACK", "HWLOC_DONT_MERGE_DIE_GROUPS", "HWLOC_PCI_LOCALITY_QUIRK_FAKE"]
+# value of a variable a case does not mention (others are unset)
+ENV_DEFAULTS = {"HWLOC_HIDE_ERRORS": "2"}
+BLACKLIST_FLAG = 1      # HWLOC_TOPOLOGY_COMPONENTS_FLAG_BLACKLIST
 
 
 def _tools():
@@ -411,6 +416,8 @@ def gen_config(rng, snap, plain=False):
         return comps, env, [], 0
     if "x86" in comps and rng.random() < 0.4:
         env["HWLOC_X86_TOPOEXT_NUMANODES"] = "1"
+    if rng.random() < 0.12:
+        env["HWLOC_HIDE_ERRORS"] = rng.choice(["0", "1"])
     if rng.random() < 0.3:
         env["HWLOC_LIBXML_EXPORT"] = rng.choice(["0", "1"])
         env["HWLOC_LIBXML_IMPORT"] = rng.choice(["0", "1"])
@@ -432,7 +439,7 @@ def gen_config(rng, snap, plain=False):
 def case_text(case):
     snap, comps, env, filters, flags, removals = case
     ls = ["snapshot: " + snap.rel]
-    ls += ["remove: " + p for p in removals]
+    ls += [("mutate: " if p.startswith("+") else "remove: ") + p for p in removals]
     ls += ["config: env %s %s" % (k, v) for k, v in sorted(env.items())]
     ls += ["config: " + f for f in filters]
     ls.append("flags: %d" % flags)
@@ -446,7 +453,7 @@ def parse_case_text(txt, snaps_by_rel):
         if l.startswith("snapshot: "):
             rel = l[10:].strip()
             snap = snaps_by_rel.get(rel) or Snap(os.path.join(C.REPO, "tests/hwloc", rel))
-        elif l.startswith("remove: "):
+        elif l.startswith("remove: ") or l.startswith("mutate: "):
             removals.append(l[8:])
         elif l.startswith("config: env "):
             kv = l[12:].split(" ", 1)
@@ -462,33 +469,156 @@ def parse_case_text(txt, snaps_by_rel):
     return (snap, env.get("HWLOC_COMPONENTS", "linux,stop"), env, filters, flags, removals)
 
 
-def case_script(cid, case, top):
-    snap, comps, env, filters, flags, removals = case
-    root = snap_root(top)
+def config_lines(env, filters):
     cfg = []
     for v in ENV_VARS:
         if v in ("HWLOC_FSROOT", "HWLOC_CPUID_PATH"):
             cfg.append("env " + v)
         elif v in env:
             cfg.append("env %s %s" % (v, env[v]))
+        elif v in ENV_DEFAULTS:
+            cfg.append("env %s %s" % (v, ENV_DEFAULTS[v]))
         else:
             cfg.append("env " + v)
     cfg += filters
+    for name in [x for x in env.get("_blacklist", "").split(";") if x]:
+        cfg.append("components %d %s" % (BLACKLIST_FLAG, name))
+    return cfg
+
+
+def mutation_line(p, root):
+    if p.startswith("+put "):
+        return "put " + p[5:]
+    if p.startswith("+ln "):
+        return "symlink " + p[4:]
+    return "hide " + p
+
+
+def case_script(cid, case, top):
+    snap, comps, env, filters, flags, removals = case
+    root = snap_root(top)
+    cfg = config_lines(env, filters)
     src = src_lines(snap, root, comps)
     ls = ["echo CASE %d" % cid, "echo RESET", "root " + root, "stash " + os.path.join(top, "stash")]
-    ls += ["hide " + p for p in removals]
+    ls += [mutation_line(p, root) for p in removals]
+    after = ["kinds"] if env.get("_kinds") else []
+    if env.get("_srcequiv"):
+        # a synthetic / XML source given through the API (reference M) and through environment variables
+        kind = env["_srcequiv"]
+        base = {k: v for k, v in env.items() if k not in ("HWLOC_COMPONENTS",)}
+        ref = ["src synthetic pack:2 core:2 pu:2"] if kind == "synthetic" else ["src xml " + SRC_XML]
+        ls += ["new"] + config_lines(base, filters) + ["flags %d" % flags] + ref + ["load", "dump", "echo NAME M", "check", "destroy"]
+        for name in [n for n in VARIANTS if n.startswith("src-" + kind)]:
+            venv, vsrc, pre, post = variant(name, snap, comps, base, root)
+            ls += ["echo VARIANT " + name, "new"] + config_lines(venv, filters) + pre + ["flags %d" % flags, "load"] + post + ["dump", "echo NAME V", "check", "destroy"]
+            if VARIANTS[name][0] == "same":
+                ls += ["echo SAME M V"]
+        ls += ["unhide", "echo END %d" % cid]
+        return ls
+    if env.get("_equiv"):
+        # component-selection equivalence: reference load, then one load per variant, each compared with it
+        ls += ["new"] + cfg + ["flags %d" % flags] + src + ["load", "dump", "echo NAME M", "check", "destroy"]
+        for name in env["_equiv"].split(","):
+            venv, vsrc, pre, post = variant(name, snap, comps, env, root)
+            ls += ["echo VARIANT " + name, "new"] + config_lines(venv, filters) + pre + ["flags %d" % flags] + vsrc + ["load"] + post + ["dump", "echo NAME V", "check", "destroy"]
+            if VARIANTS[name][0] == "same":
+                ls += ["echo SAME M V"]
+        ls += ["unhide", "echo END %d" % cid]
+        return ls
     if env.get("_light"):
         # one load only: dump (wf_check, levels) + hwloc_topology_check; used for the systematic single removals
-        ls += ["new"] + cfg + ["flags %d" % flags] + src + ["load", "dump", "echo NAME M", "check", "destroy", "unhide", "echo END %d" % cid]
+        ls += ["new"] + cfg + ["flags %d" % flags] + src + ["load"] + after + ["dump", "echo NAME M", "check", "destroy", "unhide", "echo END %d" % cid]
         return ls
     other = flags ^ 1
-    ls += ["new"] + cfg + ["flags %d" % flags] + src + ["load", "dump", "echo NAME M", "check", "xmlrt", "echo NAME X", "destroy"]
+    ls += ["new"] + cfg + ["flags %d" % flags] + src + ["load"] + after + ["dump", "echo NAME M", "check", "xmlrt", "echo NAME X", "destroy"]
     ls += ["new"] + cfg + ["flags %d" % flags] + src + ["load", "dump", "echo NAME M2", "destroy"]
     ls += ["new"] + cfg + ["flags %d" % other] + src + ["echo OTHER", "load", "dump", "echo NAME O", "check", "destroy"]
     ls += ["echo SAME M M2", "echo SAME M X"]
     ls += ["echo DISALLOWED O M", "echo INCLVIEW M"] if flags & 1 else ["echo DISALLOWED M O", "echo INCLVIEW O"]
     ls += ["unhide", "echo END %d" % cid]
     return ls
+
+
+# Component selections that must give the same topology as the case's own selection ("same"), or only the
+# general clause: clean -1 or a well-formed topology ("any").  value = (expectation, builder(comps, env, root) ->
+# (environment changes {name: value|None}, use the case's src lines?, lines before load, lines after load))
+def _v(expect, envchg=None, src=True, pre=(), post=(), comps=None):
+    return (expect, envchg or {}, src, pre if callable(pre) else list(pre), list(post), comps)
+
+
+VARIANTS = {
+    # HWLOC_COMPONENTS grammar
+    "duplicate": _v("same", comps=lambda c: c.replace(",stop", "," + c.split(",")[0] + ",stop")),
+    "unknown-name": _v("same", comps=lambda c: "nosuchcomponent," + c),
+    "unknown-excluded": _v("same", comps=lambda c: "-nosuchcomponent," + c),
+    "exclude-unselected": _v("same", comps=lambda c: "-pci,-opencl,-xml," + c),
+    "exclude-unselected-phases": _v("same", comps=lambda c: "-pci:pci,-xml:global,-synthetic:1," + c),
+    "empty-entries": _v("same", comps=lambda c: ",," + c.replace(",", ",,")),
+    "verbose": _v("same", {"HWLOC_COMPONENTS_VERBOSE": "1"}),
+    "nothing-after-stop": _v("same", comps=lambda c: c + ",x86,linux,pci"),
+    "no-stop-others-excluded": _v("same", comps=lambda c: "-pci,-no_os," + ("-x86," if "x86" not in c else "") + ("-linux," if "linux" not in c else "") + c.replace(",stop", "")),
+    # public API blacklisting
+    "api-blacklist-unselected": _v("same", {"_blacklist": "pci;xml;synthetic:global"}),
+    "api-blacklist-all-tweak": _v("same", {"_blacklist": "all:tweak"}),
+    "api-errors": _v("same", pre=["components 0 pci", "components 3 pci", "components 1 nosuchcomponent"], post=["components 1 pci"]),
+    "deprecated-linuxio-name": _v("same", {"HWLOC_COMPONENTS_VERBOSE": "1"}, comps=lambda c: c.replace("linux", "linuxio")),
+    "deprecated-linuxpci-name": _v("same", comps=lambda c: c.replace("linux", "linuxpci")),
+    "blacklist-twice": _v("same", {"_blacklist": "pci:pci;pci:io;pci", "HWLOC_COMPONENTS_VERBOSE": "1"}),
+    "verbose-everything": _v("same", {"HWLOC_COMPONENTS_VERBOSE": "1", "HWLOC_HIDE_ERRORS": "0", "_blacklist": "xml"},
+                             comps=lambda c: "nosuch,-pci,-xml:global,-linuxpci:0," + c.replace(",stop", "," + c.split(",")[0] + ",xml,stop")),
+    "exclude-io-phases-by-old-name": _v("any", comps=lambda c: "-linuxio," + c),
+    # backends forced by environment variables without HWLOC_COMPONENTS (topology.c: FSROOT > CPUID_PATH > SYNTHETIC > XMLFILE)
+    "env-fsroot-only": _v("same", {"HWLOC_COMPONENTS": None, "_blacklist": "x86;pci;no_os"}),
+    "env-fsroot-beats-synthetic-xml": _v("same", {"HWLOC_COMPONENTS": None, "_blacklist": "x86;pci;no_os", "HWLOC_SYNTHETIC": "pack:1 pu:1", "HWLOC_XMLFILE": "/nonexistent.xml"}),
+    "env-cpuid-only": _v("same", {"HWLOC_COMPONENTS": None, "_blacklist": "linux;pci;no_os"}),
+    # HWLOC_PCI_LOCALITY: file form = inline form; unparsable entries are skipped
+    "pci-locality-file": _v("same", {"HWLOC_PCI_LOCALITY": lambda root, env: root + "/verif-pci-locality"},
+                            pre=lambda root, env: ["put verif-pci-locality " + (env["HWLOC_PCI_LOCALITY"].replace(";", "\n") + "\n").encode().hex()]),
+    "pci-locality-garbage": _v("same", {"HWLOC_PCI_LOCALITY": lambda root, env: "garbage;zz 0x1;;" + env["HWLOC_PCI_LOCALITY"] + ";no-space"}),
+    # the cgroup/cpuset name found through the other files the backend knows (pre lines mutate the snapshot for this variant only)
+    "cgroup-via-proc-self-cgroup": _v("same", pre=lambda root, env: ["hide proc/self/cpuset", "put proc/self/cgroup " + (
+        "nocolon\n7:memory:/elsewhere\n" + ("0::" if env["_cgroup"] == "2" else "3:cpuset:") + env["_cpuset_name"] + "\n").encode().hex()]),
+    "cgroup-via-pid-cpuset": _v("same", pre=lambda root, env: ["pid 4242", "put proc/4242/cpuset " + (env["_cpuset_name"] + "\n").encode().hex()]),
+    "cgroup-via-pid-cgroup": _v("same", pre=lambda root, env: ["pid 4243", "put proc/4243/cgroup " + (("0::" if env["_cgroup"] == "2" else "9:cpuset:") + env["_cpuset_name"] + "\n").encode().hex()]),
+    "cgroup-pid-without-files": _v("any", pre=["pid 4244"]),
+    # the same source given through the API (reference) and through the environment
+    "src-synthetic-env": _v("same", {"HWLOC_COMPONENTS": None, "HWLOC_SYNTHETIC": "pack:2 core:2 pu:2"}, src=False),
+    "src-synthetic-env-components": _v("same", {"HWLOC_COMPONENTS": "synthetic,stop", "HWLOC_SYNTHETIC": "pack:2 core:2 pu:2"}, src=False),
+    "src-synthetic-env-after-failed-xml": _v("same", {"HWLOC_COMPONENTS": "xml,synthetic,stop", "HWLOC_SYNTHETIC": "pack:2 core:2 pu:2"}, src=False),
+    "src-xml-env": _v("same", {"HWLOC_COMPONENTS": None, "HWLOC_XMLFILE": lambda root, env: SRC_XML}, src=False),
+    "src-xml-env-components": _v("same", {"HWLOC_COMPONENTS": "xml,stop", "HWLOC_XMLFILE": lambda root, env: SRC_XML}, src=False),
+    "src-xml-api-after-synthetic-api": _v("same", {"HWLOC_COMPONENTS": None}, src=False, pre=lambda root, env: ["src synthetic pack:1 pu:1", "src xml " + SRC_XML]),
+    "src-xml-annotate-global": _v("any", {"HWLOC_COMPONENTS": None, "HWLOC_ANNOTATE_GLOBAL_COMPONENTS": "1", "HWLOC_XMLFILE": lambda root, env: SRC_XML}, src=False),
+    "src-synthetic-api-after-xml-api": _v("same", {"HWLOC_COMPONENTS": None}, src=False, pre=lambda root, env: ["src xml " + SRC_XML, "src synthetic pack:2 core:2 pu:2"]),
+    "src-xml-env-beaten-by-synthetic": _v("any", {"HWLOC_COMPONENTS": None, "HWLOC_SYNTHETIC": "pack:2 core:2 pu:2", "HWLOC_XMLFILE": lambda root, env: SRC_XML}, src=False),
+    # selecting nothing usable
+    "self-excluded": _v("any", comps=lambda c: "".join("-%s," % x for x in c.split(",") if x != "stop") + c),
+    "api-blacklist-self": _v("any", {"_blacklist": "linux;x86"}),
+    "all-cpu-phase-excluded": _v("any", {"_blacklist": "all:cpu"}),
+}
+
+
+SRC_XML = os.path.join(C.REPO, "tests/hwloc/xml/16amd64-8n2c-cpusets.xml")
+GRAMMAR_VARIANTS = ["blacklist-twice", "verbose-everything", "duplicate", "unknown-name", "unknown-excluded", "exclude-unselected", "exclude-unselected-phases", "empty-entries", "verbose",
+                    "nothing-after-stop", "no-stop-others-excluded", "api-blacklist-unselected", "api-blacklist-all-tweak", "api-errors",
+                    "self-excluded", "api-blacklist-self", "all-cpu-phase-excluded"]
+
+
+def variant(name, snap, comps, env, root):
+    expect, envchg, use_src, pre, post, fcomps = VARIANTS[name]
+    venv = dict(env)
+    if callable(pre):
+        pre = pre(root, env)
+    for k, v in envchg.items():
+        if callable(v):
+            v = v(root, env)
+        if v is None:
+            venv.pop(k, None)
+        else:
+            venv[k] = v
+    if fcomps:
+        venv["HWLOC_COMPONENTS"] = fcomps(comps)
+    return venv, (src_lines(snap, root, comps) if use_src else []), pre, post
 
 
 def run_chunk(pool, snapexe, drv, chunk):
@@ -503,9 +633,9 @@ def run_chunk(pool, snapexe, drv, chunk):
             script += case_script(cid, case, top)
         rc, out, err = C.sh([snapexe], input=("\n".join(script) + "\n").encode(), env=_env(), timeout=120 + 40 * len(todo))
         rc2, out2, err2 = C.sh([drv, "dumps"], input=out, timeout=600)
-        want_io = {cid for cid, case in todo if case[2].get("_io")}
-        if want_io:
-            io_summaries(out.decode(errors="replace"), want_io, results)
+        want_objs = {cid for cid, case in todo if case[2].get("_io") or case[2].get("_scenario")}
+        if want_objs:
+            collect_objs(out.decode(errors="replace"), want_objs, results)
         cur = None
         done = set()
         for line in out2.decode(errors="replace").split("\n"):
@@ -544,33 +674,113 @@ def run_chunk(pool, snapexe, drv, chunk):
 IO_TYPES = (16, 17, 18)     # Bridge, PCIDevice, OSDevice
 
 
-def io_summaries(raw, want, results):
-    """From the raw harness output: for each wanted case, the I/O objects of its first dump as
-    {type: sorted [identity]} with identity = (attributes without the bridge depth, name, subtype)."""
+def unq(x):
+    """inverse of hwv_pstr (harness/hwv_dump.h): "-" = NULL, else quoted with %xx escapes"""
+    if x is None or x == "-":
+        return None
+    x = x.strip('"')
+    return re.sub(r"%([0-9a-f]{2})", lambda m: chr(int(m.group(1), 16)), x)
+
+
+def parse_obj(line):
+    f = dict(x.split("=", 1) for x in line.split(" ")[2:] if "=" in x)
+    inf = {}
+    if f.get("inf", "-") != "-":
+        for kv in f["inf"].split(";"):
+            k, _, v = kv.partition("=")
+            inf.setdefault(unq(k), unq(v))
+    return {"id": int(line.split(" ")[1]), "ty": int(f.get("ty", -1)), "os": int(f.get("os", -1)), "nm": unq(f.get("nm")), "st": unq(f.get("st")),
+            "at": f.get("at", "-"), "inf": inf, "par": f.get("par"), "ccs": (int(f["ccs"][2:], 16) if f.get("ccs", "-") not in ("-",) and f["ccs"][0] == "0" else None)}
+
+
+def collect_objs(raw, want, results):
+    """From the raw harness output: for each wanted case the objects of its first dump (results[cid]['objs'],
+    None if there is no dump) and the 'kinds' line."""
     cur, taken = None, False
     for line in raw.split("\n"):
         if line.startswith("echo CASE "):
             cid = int(line[10:])
             cur, taken = (cid if cid in want else None), False
             if cur is not None:
-                results.setdefault(cur, {})["io"] = None
+                results.setdefault(cur, {})["objs"] = None
         elif cur is None:
             continue
+        elif line.startswith("kinds ") and not taken:
+            results[cur]["kinds"] = line
         elif line.startswith("T ") and not taken:
-            results[cur]["io"] = {t: [] for t in IO_TYPES}
+            results[cur]["objs"] = []
         elif line == "E":
             taken = True
-        elif line.startswith("O ") and not taken and results[cur]["io"] is not None:
-            f = dict(x.split("=", 1) for x in line.split(" ")[2:] if "=" in x)
-            ty = int(f.get("ty", -1))
-            if ty in IO_TYPES:
-                at = ",".join(a for a in f.get("at", "").split(",") if not a.startswith("bdepth:"))
-                results[cur]["io"][ty].append((at, f.get("nm"), f.get("st")))
+        elif line.startswith("O ") and not taken and results[cur]["objs"] is not None:
+            results[cur]["objs"].append(parse_obj(line))
     for cid in want:
-        io = results.get(cid, {}).get("io")
-        if io:
+        objs = results.get(cid, {}).get("objs")
+        if objs is not None:
+            for o in objs:
+                o["parccs"] = objs[int(o["par"])]["ccs"] if (o["par"] or "-").isdigit() and int(o["par"]) < len(objs) else None
+            io = {t: [] for t in IO_TYPES}
+            for o in objs:
+                if o["ty"] in IO_TYPES:
+                    at = ",".join(a for a in o["at"].split(",") if not a.startswith("bdepth:"))
+                    io[o["ty"]].append((at, o["nm"], o["st"]))
             for t in io:
                 io[t].sort()
+            results[cid]["io"] = io
+
+
+def obj_matches(o, pat):
+    for k in ("ty", "nm", "st", "os", "parccs"):
+        if k in pat and o[k] != pat[k]:
+            return False
+    if "at" in pat and pat["at"] not in o["at"]:
+        return False
+    for k, v in pat.get("inf", {}).items():
+        if o["inf"].get(k) != v:
+            return False
+    for k in pat.get("noinf", []):
+        if k in o["inf"]:
+            return False
+    return True
+
+
+def expect_verdicts(name, exp, r):
+    """What a fabricated scenario promises, evaluated on the objects of the dump."""
+    out = []
+    objs = r.get("objs")
+    load = next((l for l in r.get("lines", []) if l.startswith("load ")), "")
+    if exp.get("load") == 0 and "rc=0" not in load:
+        return [("fabricated:%s:load" % name, "scenario %s must load: %s" % (name, load))]
+    if exp.get("load") == -1 and "rc=-1" not in load:
+        return [("fabricated:%s:load" % name, "scenario %s must be rejected: %s" % (name, load))]
+    if objs is None:
+        return out
+    for pat in exp.get("objs", []):
+        if not any(obj_matches(o, pat) for o in objs):
+            near = [(o["nm"], o["st"], o["inf"], o["at"]) for o in objs if o["ty"] == pat.get("ty") and ("nm" not in pat or o["nm"] == pat["nm"])][:3]
+            out.append(("fabricated:%s:object-missing" % name, "scenario %s: no object matches %s; candidates %s" % (name, pat, near)))
+    for pat in exp.get("none", []):
+        if any(obj_matches(o, pat) for o in objs):
+            out.append(("fabricated:%s:object-unexpected" % name, "scenario %s: an object matches %s" % (name, pat)))
+    for ty, n in exp.get("count", []):
+        got = sum(1 for o in objs if o["ty"] == ty)
+        if got != n:
+            out.append(("fabricated:%s:count-type%d" % (name, ty), "scenario %s: %d objects of type %d, expected %d" % (name, got, ty, n)))
+    for ty, n in exp.get("mincount", []):
+        got = sum(1 for o in objs if o["ty"] == ty)
+        if got < n:
+            out.append(("fabricated:%s:count-type%d" % (name, ty), "scenario %s: %d objects of type %d, expected at least %d" % (name, got, ty, n)))
+    root = objs[0]["inf"] if objs else {}
+    for k, v in exp.get("rootinf", {}).items():
+        if root.get(k) != v:
+            out.append(("fabricated:%s:root-info-%s" % (name, k), "scenario %s: Machine info %s=%r, expected %r" % (name, k, root.get(k), v)))
+    for k in exp.get("norootinf", []):
+        if k in root:
+            out.append(("fabricated:%s:root-info-%s" % (name, k), "scenario %s: Machine info %s=%r must be absent" % (name, k, root[k])))
+    if "kinds_n" in exp:
+        m = re.match(r"kinds n=(-?\d+)", r.get("kinds", ""))
+        if not m or int(m.group(1)) != exp["kinds_n"]:
+            out.append(("fabricated:%s:cpukinds" % name, "scenario %s: %s, expected %d CPU kind(s)" % (name, r.get("kinds"), exp["kinds_n"])))
+    return out
 
 
 def io_filters_of(case):
@@ -657,9 +867,12 @@ def verdicts(r):
     for l in lines:
         if l.startswith("load ") and "rc=0" not in l and "rc=-1" not in l:
             out.append(("load-rc", "hwloc_topology_load returned neither 0 nor -1: " + l))
-        if l.startswith("hide failed") or l.startswith("unhide-failed"):
+        if l.startswith("hide failed") or l.startswith("unhide-failed") or l.startswith("put failed"):
             out.append(("infrastructure:hide", l))
-    if len(main_loads) >= 2 and ("rc=0" in main_loads[0]) != ("rc=0" in main_loads[1]):
+    has_variants = any(l.startswith("echo VARIANT ") for l in lines)
+    if has_variants:
+        out += variant_verdicts(lines)
+    elif len(main_loads) >= 2 and ("rc=0" in main_loads[0]) != ("rc=0" in main_loads[1]):
         out.append(("nondeterministic:load-rc", "two loads of the same snapshot and configuration: %s / %s" % (main_loads[0], main_loads[1])))
     for l in lines:
         if l.startswith("wf VIOLATION"):
@@ -687,6 +900,38 @@ def verdicts(r):
         i_ok = ("rc=0" in other_loads[0]) if flags_incl_is_other else ("rc=0" in main_loads[0])
         if d_ok and not i_ok:
             out.append(("disallowed:incl-load-fails", "the default load succeeds but the INCLUDE_DISALLOWED load of the same source fails"))
+    return out
+
+
+def variant_verdicts(lines):
+    """Component-selection equivalence: sections 'echo VARIANT <name>' ... of a case with _equiv."""
+    out = []
+    ref_load = next((l for l in lines if l.startswith("load ")), None)
+    cur, sec = None, {}
+    for l in lines:
+        if l.startswith("echo VARIANT "):
+            cur = l[13:]
+            sec[cur] = []
+        elif cur is not None:
+            sec[cur].append(l)
+    for name, ls in sec.items():
+        expect = VARIANTS[name][0]
+        load = next((l for l in ls if l.startswith("load ")), None)
+        if expect == "same":
+            if load is None or ref_load is None or ("rc=0" in load) != ("rc=0" in ref_load):
+                out.append(("component-selection:%s:load-rc" % name, "component selection variant '%s' must behave like the plain selection: load %s vs %s" % (name, load, ref_load)))
+            for l in ls:
+                if l.startswith("same M V DIFF"):
+                    out.append(("component-selection:%s" % name, "component selection variant '%s' gives another topology than the plain selection: %s" % (name, l[:400])))
+        if name == "api-errors":
+            got = [l for l in ls if l.startswith("components ")]
+            want = ["components rc=-1 errno=EINVAL"] * 3 + ["components rc=-1 errno=EBUSY"]
+            if got != want:
+                out.append(("set_components-errors", "hwloc_topology_set_components(flags 0 / unknown flag / unknown name / after load) returned %s, expected %s" % (got, want)))
+        else:
+            for l in ls:
+                if l.startswith("components ") and "rc=0" not in l:
+                    out.append(("set_components-fails:%s" % name, "hwloc_topology_set_components(BLACKLIST, valid name) failed in variant %s: %s" % (name, l)))
     return out
 
 
@@ -751,7 +996,10 @@ class SnapSearch:
         r = self.exec_cases([case])[0]
         if r is None:
             return False
-        return any(k == key for k, _ in verdicts(r))
+        vs = verdicts(r)
+        if case[2].get("_scenario") in SCENARIOS:
+            vs += expect_verdicts(case[2]["_scenario"], SCENARIOS[case[2]["_scenario"]], r)
+        return any(k == key for k, _ in vs)
 
     def shrink(self, case, key):
         snap, comps, env, filters, flags, removals = case
@@ -789,6 +1037,8 @@ class SnapSearch:
                 self.run.violation("not-run:" + snap.kind, "case did not run", case_text(case), no_input=True)
                 continue
             vs = verdicts(r)
+            if case[2].get("_scenario") in SCENARIOS:
+                vs += expect_verdicts(case[2]["_scenario"], SCENARIOS[case[2]["_scenario"]], r)
             tr = "\n".join(l for l in r["lines"] if l.startswith(("load", "wf", "levels", "check", "xmlrt", "same", "disallowed")))
             self.run.count(case_text(case) + tr, nontrivial=r.get("loaded", False),
                            sample={"case": case_text(case)[:300], "verdicts": tr[:300]},
@@ -835,7 +1085,7 @@ def make_snapshot_cases(run, pool, snaps):
             comps, env, filters, flags = gen_config(rng, snap)
             cases.append(("config", (snap, comps, env, filters, flags, [])))
         # 3. random removal sets (up to 40 paths) x random configuration
-        for _ in range(22 if quick else 80):
+        for _ in range(16 if quick else 80):
             comps, env, filters, flags = gen_config(rng, snap, plain=rng.random() < 0.3)
             pool_paths = rem
             if snap.kind == "x86+linux":
@@ -949,6 +1199,118 @@ def io_cases(run, pool, snaps):
     return cases
 
 
+CGROUP_SNAPSHOTS = ("32amd64-4s2n4c-cgroup2", "16amd64-4n4c-cgroup-distance-merge", "16amd64-8n2c-cpusets")
+
+
+def tar_member_text(tarball, suffix):
+    import tarfile
+    with tarfile.open(tarball, "r:bz2") as tf:
+        for m in tf:
+            if m.name.endswith("/" + suffix) and m.isfile():
+                return tf.extractfile(m).read().decode(errors="replace")
+    return None
+
+
+def equiv_cases(run, snaps):
+    """Component-selection equivalence (VARIANTS): quick = a seed-rotated slice of the snapshots (3 Linux, 2 x86, the
+    x86+linux ones) plus the PCI-locality snapshot; thorough = all snapshots; and the synthetic/XML-by-environment pair."""
+    quick = run.tier == "quick"
+    cases = []
+
+    def rot(l, k):
+        o = (run.seed * k) % max(1, len(l))
+        return (l + l)[o:o + min(k, len(l))]
+    lin = [s for s in snaps if s.kind == "linux"]
+    x86 = [s for s in snaps if s.kind == "x86"]
+    both = [s for s in snaps if s.kind == "x86+linux"]
+    chosen = (rot(lin, 3) + rot(x86, 2) + both) if quick else snaps
+    for snap in chosen:
+        for comps in (["linux,stop"] if snap.kind == "linux" else ["x86,stop"] if snap.kind == "x86" else ["x86,linux,stop", "linux,x86,stop"]):
+            names = list(GRAMMAR_VARIANTS)
+            if snap.kind == "linux":
+                names += ["env-fsroot-only", "env-fsroot-beats-synthetic-xml", "deprecated-linuxio-name", "deprecated-linuxpci-name", "exclude-io-phases-by-old-name"]
+            if snap.kind == "x86":
+                names += ["env-cpuid-only"]
+            env = {"HWLOC_COMPONENTS": comps, "HWLOC_THISSYSTEM": "0", "_equiv": ",".join(names)}
+            if "linux" in comps:
+                env["HWLOC_DUMPED_HWDATA_DIR"] = "/var/run/hwloc"
+            cases.append(("component-equivalence", (snap, comps, env, S.filter_lines(run.rng) if not quick or run.rng.random() < 0.5 else [], 0, [])))
+    for snap in lin:
+        loc = dict(snap.test_env).get("HWLOC_PCI_LOCALITY")
+        if loc:
+            env = {"HWLOC_COMPONENTS": "linux,stop", "HWLOC_THISSYSTEM": "0", "HWLOC_PCI_LOCALITY": loc, "_equiv": "pci-locality-file,pci-locality-garbage"}
+            cases.append(("component-equivalence", (snap, "linux,stop", env, ["filter 16 0", "filter 17 0", "filter 18 0"], 0, [])))
+    for snap in lin:
+        name = tar_member_text(snap.tarball, "proc/self/cpuset") if snap.name in CGROUP_SNAPSHOTS else None
+        if name:
+            env = {"HWLOC_COMPONENTS": "linux,stop", "HWLOC_THISSYSTEM": "0", "_cpuset_name": name.strip(), "_cgroup": "2" if "cgroup2" in snap.name else "1",
+                   "_equiv": "cgroup-via-proc-self-cgroup,cgroup-via-pid-cpuset,cgroup-via-pid-cgroup,cgroup-pid-without-files"}
+            cases.append(("component-equivalence", (snap, "linux,stop", env, [], run.rng.choice([0, 1]), [])))
+    small = next((s for s in lin if s.name == "2ps3-2t"), lin[0] if lin else None)
+    if small is not None:
+        for kind in ("synthetic", "xml"):
+            cases.append(("component-equivalence", (small, "linux,stop", {"HWLOC_THISSYSTEM": "0", "_srcequiv": kind}, [], 0, [])))
+    return cases
+
+
+SCENARIOS = {}
+
+
+def scenario_cases(run, snaps):
+    """Fabricated snapshots (gen/snapshot_gen.scenarios): every scenario once as a full case in every tier (they are
+    few and small); the thorough tier adds each of them under random filters/flags as robustness-only cases."""
+    by_name = {s.name: s for s in snaps}
+    cases = []
+    for name, base, ops, envadd, filters, exp in G.scenarios():
+        snap = by_name.get(base)
+        if snap is None:
+            continue
+        SCENARIOS[name] = exp
+        comps, env, _, _ = gen_config(run.rng, snap, plain=True)
+        env = {k: v for k, v in env.items() if k in ("HWLOC_COMPONENTS", "HWLOC_THISSYSTEM")}
+        env.update(envadd)
+        comps = env["HWLOC_COMPONENTS"]
+        env["_scenario"] = name
+        if run.tier == "quick" and run.rng.random() < 0.75:
+            env["_light"] = "1"       # the expectation is judged in every tier; second load / XML / disallowed view on a quarter of them
+        cases.append(("fabricated", (snap, comps, env, list(filters), 0, list(ops))))
+        if run.tier != "quick":
+            for _ in range(6):
+                c2, e2, f2, fl2 = gen_config(run.rng, snap)
+                e2 = dict(e2)
+                e2.update({k: v for k, v in envadd.items() if not k.startswith("_")})
+                cases.append(("fabricated-random", (snap, c2, e2, f2, fl2, list(ops))))
+    return cases
+
+
+def corrupt_cases(run, pool, snaps):
+    """An attribute file overwritten with a hostile content (gen.snapshot_gen.CORRUPT_CONTENTS): light cases, one file
+    per file-name class; quick = a seed-rotated slice of 160 (snapshot, class) pairs, thorough = every class, one random content each."""
+    quick = run.tier == "quick"
+    pairs = []
+    for snap in snaps:
+        rem = removable_of(pool, snap)
+        classes = {}
+        for p in rem:
+            if ("sys/devices/system/" in p or snap.kind == "x86" or "cpuid/" in p or p.startswith("proc/") or "/proc/" in p) and not p.endswith(("topology", "cache", "node", "cpu")):
+                classes.setdefault(class_of(p), []).append(p)
+        for cls in sorted(classes):
+            pairs.append((snap, cls, classes[cls]))
+    if quick:
+        off = (run.seed * 160) % max(1, len(pairs))
+        pairs = (pairs + pairs)[off:off + 160]
+    cases = []
+    for snap, cls, inst in pairs:
+        comps, env, filters, flags = gen_config(run.rng, snap, plain=True)
+        env = dict(env)
+        env["_light"] = "1"
+        for _ in range(1):
+            p = run.rng.choice(inst)
+            content = run.rng.choice(G.CORRUPT_CONTENTS)
+            cases.append(("corrupt", (snap, comps, env, [], 0, ["+put %s %s" % (p, content.hex() or "-")])))
+    return cases
+
+
 def select_snapshots(run):
     lin = [Snap(t) for t in S.snapshots("linux")]
     x86 = [Snap(t) for t in S.snapshots("x86")]
@@ -988,6 +1350,9 @@ def check_snapshots(run, snapexe, drv, replay_case=None):
                     for k in ("linux", "x86", "x86+linux") for t in S.snapshots(k)]
         labelled += class_cases(run, pool, allsnaps)
         labelled += io_cases(run, pool, allsnaps)
+        labelled += scenario_cases(run, allsnaps)
+        labelled += equiv_cases(run, allsnaps)
+        labelled += corrupt_cases(run, pool, allsnaps)
         run.cov["snapshots_used"] = sorted(s.rel for s in snaps)
         # judge per label so that the evidence shows the distribution
         cases = [c for _, c in labelled]
